@@ -225,7 +225,7 @@ class PureEval:
         if isinstance(v, SRef):
             c = self.st.cell(v.ref)
             if isinstance(c, DictCell): return SDictV(c.kty, c.vty, c.dom, c.val)
-            if isinstance(c, ListCell): return SSeq(c.elem, c.n, c.arr)
+            if isinstance(c, ListCell): return SSeq(c.elem, c.n, c.arr, setview=c.setview)
             if isinstance(c, SetCell): return SSetV(c.elem, c.mem)
         if isinstance(v, SSubSet):
             return SSetV(v.elem, self.st.cell(v.ref).val[v.key])
